@@ -137,7 +137,11 @@ type Transport struct {
 	// Do fails with context.Cause(ctx) rather than ctx.Err(), as net/http's
 	// HTTP/1.1 transport does (the two differ for contexts ended with a
 	// caller-supplied cause).
-	CauseFromDo bool
+	// UnbufferedResponse: every handler write reaches the peer at once (by
+	// default writes go through a 4 KiB buffer as with net/http, and reach the
+	// peer when it fills, on Flush and when the handler returns).
+	UnbufferedResponse bool
+	CauseFromDo        bool
 	// PromptCancel restores an idealised transport that notices the end of the
 	// request context at once in every state (HTTP/1.1 does; HTTP/2 does not
 	// while its body sender is blocked reading an idle request body).
@@ -365,9 +369,12 @@ type call struct {
 	// Read after the response had been handed over; it takes effect when that
 	// Read returns.
 	cancelPending bool
-	aborted       chan struct{}
-	abortOnce     sync.Once
-	abortErr      error
+	// respPending: response bytes the handler has written and net/http's
+	// buffered writer has not passed on yet
+	respPending []byte
+	aborted     chan struct{}
+	abortOnce   sync.Once
+	abortErr    error
 }
 
 // reqBodyFailed: reading the request body the caller supplied failed under the
@@ -664,6 +671,7 @@ func (c *call) serve(rw http.ResponseWriter, sreq *http.Request) {
 func (c *call) finishResponse() {
 	c.t.gate("T.finish")
 	c.writeHeaderOnce(0)
+	c.flushResp()
 	c.mu.Lock()
 	trailers := http.Header{}
 	declared := map[string]bool{}
@@ -860,6 +868,12 @@ func (w *responseWriter) WriteHeader(status int) {
 	w.c.writeHeaderOnce(status)
 }
 
+// respBufferSize is the size of the buffered writer that net/http puts between
+// a handler and the connection (HTTP/1.1 and HTTP/2 alike): what a handler
+// writes reaches the peer when that buffer fills, on Flush, and when the
+// handler returns - not before.
+const respBufferSize = 4096
+
 func (w *responseWriter) Write(p []byte) (int, error) {
 	w.c.t.gate("S.write")
 	w.c.writeHeaderOnce(0)
@@ -867,13 +881,44 @@ func (w *responseWriter) Write(p []byte) (int, error) {
 	w.c.ex.mu.Lock()
 	w.c.ex.RespBody = append(w.c.ex.RespBody, cp...)
 	w.c.ex.mu.Unlock()
-	w.c.resp.write(cp)
+	if w.c.t.UnbufferedResponse {
+		w.c.resp.write(cp)
+		return len(p), nil
+	}
+	// bufio.Writer.Write: fill and flush whole buffers (a large write into an
+	// empty buffer goes straight through), keep the rest
+	w.c.mu.Lock()
+	for len(cp) > respBufferSize-len(w.c.respPending) {
+		if len(w.c.respPending) == 0 {
+			w.c.resp.write(cp)
+			cp = nil
+			break
+		}
+		n := respBufferSize - len(w.c.respPending)
+		w.c.resp.write(append(w.c.respPending, cp[:n]...))
+		w.c.respPending = nil
+		cp = cp[n:]
+	}
+	w.c.respPending = append(w.c.respPending, cp...)
+	w.c.mu.Unlock()
 	return len(p), nil
+}
+
+// flushResp hands the buffered response bytes to the peer.
+func (c *call) flushResp() {
+	c.mu.Lock()
+	pending := c.respPending
+	c.respPending = nil
+	c.mu.Unlock()
+	if len(pending) > 0 {
+		c.resp.write(pending)
+	}
 }
 
 func (w *responseWriter) Flush() {
 	w.c.t.gate("S.flush")
 	w.c.writeHeaderOnce(0)
+	w.c.flushResp()
 }
 
 type respBody struct {
